@@ -39,6 +39,9 @@ def _get_scale_factor(matrix):
 
     scale_factor = np.sum(np.abs(matrix))
 
+    if scale_factor == 0.0:
+        return 1.0
+
     scale_factor = scale_factor / dim**2 / np.sqrt(2.0)
 
     return scale_factor
